@@ -137,10 +137,13 @@ Theorem c11_legalize_twice : forall c rh order order2 c1,
 Proof. exact legalize_circuit_twice. Qed.
 
 (* [P] what is not covered: designs outside rowhigh_design (multi-row movable cells are excluded
-   by the statement of C11; turned rows, overlapping rows), and the link between the float key of
-   computeCellOrder and order_left_to_right, which is c11_order_preserved (exact arithmetic,
-   ordering width in [0,1]) plus the exactness of the float key for |v| < 2^20, checked by
-   ./check C11 on the implementation's own order. *)
+   by the statement of C11; turned rows, overlapping rows).  The link between computeCellOrder and
+   order_left_to_right is proved at the end of this file for the model of computeCellOrder over Q
+   (c11_real_order_left_to_right and the closed-model theorems c11_legalize_real_order_*); what
+   stays outside the proof is the binary32 evaluation of the key (exact, hence equal to the model,
+   when every intermediate is a multiple of 2^-s below 2^(24-s) in magnitude: compared exactly on
+   such cases by checks/c11_order.py; rounded keys may tie or invert two cells where the exact keys
+   do not). *)
 
 (* non-vacuity: two rows, an obstruction splitting the first, three movable cells (polarities
    SAME / ANY / OPPOSITE) legally placed, two of them in one segment: every hypothesis holds,
@@ -212,3 +215,90 @@ Qed.
 
 Print Assumptions c11_legalize_idempotent.
 Print Assumptions c11_legalize_twice.
+
+(* ================================================================== *)
+(* The cell order is no longer an oracle: LegalizerBase::computeCellOrder is modelled
+   (CellOrder.v: key over Q, std::stable_sort of the (key, index) pairs under std::pair's order) and
+   the chain is closed (CellOrderProofs.v).  legalize_real p c = legalize_circuit c (cell_order p c)
+   is the CLOSED model of DetailedPlacer::legalize with LegalizationParameters p
+   (op_w = orderingWidth, op_y = orderingY, op_h = orderingHeight; the weight of x is 1.0).
+   Tie: checks/c11_order.py compares cell_order with the vector returned by the real computeCellOrder,
+   exactly where the binary32 evaluation of the key is exact. *)
+From Coq Require Import QArith Permutation.
+Require Import CV.CellOrder CV.CellOrderProofs.
+
+(* [F] computeCellOrder returns a permutation of the cell indices 0..n-1, for all weights and cells *)
+Theorem c11_cell_order_permutation : forall wx ww wy wh cells,
+  Permutation (compute_cell_order wx ww wy wh cells) (seq 0 (length cells)).
+Proof. exact compute_cell_order_perm. Qed.
+
+(* [F] ... and it is THE sorted one: whenever (key_i, i) < (key_j, j) in std::pair's order, i comes
+   before j (the pairs are pairwise different, so this fixes the position of every index) *)
+Theorem c11_cell_order_sorted : forall wx ww wy wh cells a b i j ci cj,
+  nth_error (compute_cell_order wx ww wy wh cells) a = Some i ->
+  nth_error (compute_cell_order wx ww wy wh cells) b = Some j ->
+  nth_error cells i = Some ci -> nth_error cells j = Some cj ->
+  pair_ltb (cell_key wx ww wy wh ci, i) (cell_key wx ww wy wh cj, j) = true -> (a < b)%nat.
+Proof. exact compute_cell_order_sorted. Qed.
+
+(* [F] the hypothesis order_left_to_right of the theorems above holds for the computed order on every
+   row-high design when 0 <= orderingWidth <= 1, whatever orderingY and orderingHeight (two cells of
+   one free segment have the same y and the same placed height: these terms are equal in both keys) *)
+Theorem c11_real_order_left_to_right : forall p c rh,
+  rowhigh_design c rh -> (0 <= op_w p)%Q -> (op_w p <= 1)%Q -> order_left_to_right c (cell_order p c).
+Proof. exact cell_order_left_to_right. Qed.
+
+(* [F on rowhigh_design, orderingWidth in [0,1]] THE property for the closed model: no cell of a legal
+   placement on admitted rows is moved (kept: only the orientation may become the prescribed one) *)
+Theorem c11_legalize_real_order_fixpoint : forall p c rh,
+  rowhigh_design c rh -> legal c -> polarity_admits c -> (0 <= op_w p)%Q -> (op_w p <= 1)%Q ->
+  exists c', legalize_real p c = LegOk c' /\ rows c' = rows c /\ Forall2 (kept c) (cells c) (cells c').
+Proof. exact legalize_real_fixpoint. Qed.
+
+(* [F, same domain] ... and the circuit is returned unchanged when the orientations are already the
+   prescribed ones *)
+Theorem c11_legalize_real_order_idempotent : forall p c rh,
+  rowhigh_design c rh -> legal c -> polarity_admits c -> (0 <= op_w p)%Q -> (op_w p <= 1)%Q ->
+  (forall k r, In k (movable c) -> In r (rows c) -> under r k -> seg_orientation (leg_cell_of k) r = c_o k) ->
+  legalize_real p c = LegOk c.
+Proof. exact legalize_real_idempotent. Qed.
+
+(* [F, same domain] legalizing twice = legalizing once, each run computing its own order: the first
+   run with ANY parameters p0 on ANY row-high design (legal or not), the second with orderingWidth
+   in [0,1] (in particular p = p0) *)
+Theorem c11_legalize_real_order_twice : forall p0 p c rh c1,
+  rowhigh_design c rh -> legalize_real p0 c = LegOk c1 -> (0 <= op_w p)%Q -> (op_w p <= 1)%Q ->
+  legalize_real p c1 = LegOk c1.
+Proof. exact legalize_real_twice. Qed.
+
+(* [R, known finding F10, now at circuit level] for an accepted orderingWidth in (1,2] and for one in
+   [-1,0) there is a circuit satisfying every other hypothesis of c11_legalize_real_order_idempotent
+   whose cells the closed model moves (w_f10 with 3/2: wide cell then narrow cell; w_f10b with -1/2) *)
+Theorem c11_real_order_refuted :
+  (exists c p c', fixpoint_hyps c 2 /\ (1 < op_w p)%Q /\ (op_w p <= 2)%Q /\
+                  legalize_real p c = LegOk c' /\ map c_x (cells c') <> map c_x (cells c)) /\
+  (exists c p c', fixpoint_hyps c 2 /\ (-1 <= op_w p)%Q /\ (op_w p < 0)%Q /\
+                  legalize_real p c = LegOk c' /\ map c_x (cells c') <> map c_x (cells c)).
+Proof. exact legalize_real_ordering_refuted. Qed.
+
+(* non-vacuity: the parameters of effort 3 (orderingWidth 0.2, orderingY 0, orderingHeight -1) on the
+   three-cell circuit above: the computed order is [0;1;2], the closed model returns the circuit; with
+   ordering width 3/2 on w_f10 the computed order is inverted *)
+Definition p_default : order_params := {| op_w := 1 # 5; op_y := 0; op_h := -1 # 1 |}.
+Example c11_real_order_nonvacuous :
+  (0 <= op_w p_default)%Q /\ (op_w p_default <= 1)%Q /\
+  cell_order p_default ex_c11 = [0%nat; 1%nat; 2%nat] /\ legalize_real p_default ex_c11 = LegOk ex_c11 /\
+  (exists c1, legalize_real p_default ex_c11_bad = LegOk c1 /\ c1 <> ex_c11_bad /\ legalize_real p_default c1 = LegOk c1) /\
+  cell_order p_f10 w_f10 = [1%nat; 0%nat].
+Proof.
+  split; [discriminate|]. split; [discriminate|]. split; [vm_compute; reflexivity|]. split; [vm_compute; reflexivity|].
+  split; [|vm_compute; reflexivity]. eexists. split; [vm_compute; reflexivity|]. split; [discriminate|vm_compute; reflexivity].
+Qed.
+
+Print Assumptions c11_cell_order_permutation.
+Print Assumptions c11_cell_order_sorted.
+Print Assumptions c11_real_order_left_to_right.
+Print Assumptions c11_legalize_real_order_fixpoint.
+Print Assumptions c11_legalize_real_order_idempotent.
+Print Assumptions c11_legalize_real_order_twice.
+Print Assumptions c11_real_order_refuted.
